@@ -1,6 +1,7 @@
 (* Property C20 - the log limiter drops only exact repeats inside the interval. *)
 From Coq Require Import List ZArith Bool Arith.
 From TR Require Import model.LogLimiter proofs.LogLimiterProofs model.ThrExt proofs.TieCorollaries.
+From TR Require Import translated.MotionProcessor proofs.FactsLog.
 Import ListNotations.
 Open Scope Z_scope.
 
@@ -77,3 +78,11 @@ Example C20_ex :
                           (2, s 62); (1, s 63); (1, s 122); (1, s 123)]
   = [true; false; false; true; false; true; true; false; true].
 Proof. vm_compute. reflexivity. Qed.
+
+(* The recorder's side (motion/motionprocessor.go as it is now): every log line of the motion processor
+   is handed to its limiter - no call of log.Print* / fmt.Print* leaves the translated processor - so
+   what the theorems above say about the limiter is what the daemon's log shows. *)
+Theorem C20_processor_logs_through_limiter :
+  forallb (fun n => negb (direct_print n)) ext_names_MotionProcessor = true /\
+  In logging_call ext_names_MotionProcessor.
+Proof. exact processor_logs_only_through_limiter. Qed.
